@@ -477,4 +477,4 @@ mod tests {
 
 #[cfg(kani)]
 #[path = "/verif/harness/teos/carrier.rs"]
-mod verif_harness;
+pub(crate) mod verif_harness;
